@@ -66,7 +66,11 @@ def all_cases(quick):
                         for seq in seqs:
                             n += 1
                             cases.append({'n': n, 'policy': policy, 'conn': conn, 'm': m, 'body': body, 'addr': addr, 'seq': list(seq)})
-    return cases
+    # fixed stride permutation (no randomness): neighbouring cases on an instance differ in every dimension, and the
+    # cases that are run twice for the determinism obligation are spread over the whole product
+    N = len(cases)
+    stride = next(p for p in (389, 397, 401, 409, 419) if N % p)
+    return [cases[(i * stride) % N] for i in range(N)]
 
 
 def case_name(c):
